@@ -34,6 +34,10 @@ FINDINGS = {
                                           "behind the fragment and are never loaded (or make the file unloadable)",
     "C02-torn-create-bricks-swamp": "a crash while the new file's header/name is being written leaves a file that openExistingFile cannot "
                                     "open and ensureWriter never recreates: every later Write is dropped",
+    "C02-zero-filled-tail-wipes-swamp": "a zero-filled tail (file size on disk, data not) is taken for a corrupt block: Load aborts and the "
+                                        "swamp comes back empty although everything in front of the zeros was synced",
+    "C02-open-destroys-blocks-behind-midfile-damage": "the torn-tail cut of the open fires on a damaged block header in the middle of the "
+                                                      "file and destroys every intact block behind it",
     "C02-crash-loses-synced-data": "a crash image loads to a state that misses fsynced records",
     "C02-ack-not-durable": "records acknowledged by a write tick are not on disk",
 }
@@ -48,6 +52,7 @@ def spec_scan(ops, impl):
     written, at_op, syncs = [], {}, []
     acked, pending_ack, nops = [], None, 0   # (first op index after an acknowledged Sync/Close, entries written by then)
     cut = False
+    zapped, size_now = None, None
     for i, op in enumerate(ops):
         if i >= len(impl):
             break
@@ -60,6 +65,7 @@ def spec_scan(ops, impl):
             written, at_op, syncs = [], {}, []
             acked, pending_ack, nops = [], None, 0
             cut = False
+            zapped, size_now = None, None
             blk_n, flushed = {}, []     # entries per block id; (op index of a completed payload write, entries on disk by then)
         elif f[0] == "blk":
             blk_n[f[1]] = len(f[4].split(";")) if f[4] not in ("", "-") else 0
@@ -83,9 +89,18 @@ def spec_scan(ops, impl):
                     break
             else:
                 bad.append((i, "the load after a torn tail returns %s, which is not the replay of a prefix of what was written" % got, "recover"))
+        elif f[0] == "act" and f[1] == "size":
+            got = rep.split(" ")[1] if " " in rep else "-"
+            if zapped is not None and got.isdigit() and int(got) < zapped:
+                bad.append((i, "a block header in the middle of the file was damaged (intact blocks behind it); after the next "
+                               "open the file has %s bytes, it had %d: the blocks behind the damage were destroyed" % (got, zapped), "destroy"))
+            if got.isdigit():
+                size_now = int(got)
         elif f[0] in ("log", "plant"):
             if f[0] == "plant" and f[2] == "trunc":
                 cut = True
+            if f[0] == "plant" and f[2] == "write" and f[7] == "zero":
+                cut, zapped = True, size_now
             idx = int(f[1])
             nops = idx + 1
             at_op[idx] = len(written)
